@@ -20,6 +20,9 @@ pub struct RawParameters {
     // The keys among the globals that stem from the context (e.g. the default
     // ellipsoid), as opposed to arguments given by the caller(s) of a macro
     context_keys: BTreeSet<String>,
+    // The macro invocation whose arguments were entered into the globals most
+    // recently (empty if none)
+    bound: String,
 }
 
 impl RawParameters {
@@ -40,6 +43,7 @@ impl RawParameters {
                 globals,
                 recursion_level,
                 context_keys,
+                bound: String::new(),
             };
             return previous.next(&previous.invocation);
         }
@@ -52,6 +56,7 @@ impl RawParameters {
             globals,
             recursion_level,
             context_keys,
+            bound: String::new(),
         }
     }
 
@@ -60,30 +65,58 @@ impl RawParameters {
     // them into the globals.
     // Otherwise, we just copy the globals from the previous step, and
     // update the recursion counter.
+    //
+    // The arguments of a macro invocation belong to the frame of the caller:
+    // Look-ups (`$name`, `$name(default)`) and defaults (`(default)`) among them
+    // are resolved there, *before* they enter the globals. Otherwise an argument
+    // forwarded under its own name (`x=$x`, `x=(5)`) would overwrite the very
+    // value it refers to, and end up referring to itself.
     pub fn next(&self, definition: &str) -> RawParameters {
         let mut recursion_level = self.recursion_level + 1;
         let mut globals = self.globals.clone();
         let mut context_keys = self.context_keys.clone();
+        let definition = definition.trim().to_string();
+        let mut bound = String::new();
         if definition.is_resource_name() {
-            globals.remove("_name");
-            let arguments = definition.split_into_parameters();
-            for key in arguments.keys() {
-                context_keys.remove(key);
+            // `Op::op()` calls `next()` once more for an invocation which was already
+            // handled when the enclosing pipeline (or `new()`) called `next()` for it.
+            // The arguments must be resolved just once: The second time around, the
+            // globals are no longer the frame of the caller.
+            if self.bound != definition {
+                globals.remove("_name");
+                let mut arguments = definition.split_into_parameters();
+                let raw = arguments.clone();
+                for (key, value) in &raw {
+                    let value = value.trim();
+                    if key == "_name" || !(value.starts_with('$') || value.starts_with('(')) {
+                        continue;
+                    }
+                    // An argument that cannot be resolved is left as it is
+                    if let Ok(Some(resolved)) =
+                        super::parsed_parameters::chase(&self.globals, &raw, key)
+                    {
+                        arguments.insert(key.clone(), resolved);
+                    }
+                }
+                for key in arguments.keys() {
+                    context_keys.remove(key);
+                }
+                globals.extend(arguments);
+                globals.remove("inv");
+                globals.remove("omit_fwd");
+                globals.remove("omit_inv");
             }
-            globals.extend(arguments);
-            globals.remove("inv");
-            globals.remove("omit_fwd");
-            globals.remove("omit_inv");
+            bound = definition.clone();
             recursion_level += 1;
         }
         let invocation = self.invocation.clone();
-        let definition = definition.trim().to_string();
         RawParameters {
             invocation,
             definition,
             globals,
             recursion_level,
             context_keys,
+            bound,
         }
     }
 
